@@ -162,10 +162,13 @@ class Check:
             'rules': rules,
             'analysed': dict(stats, functions_with_obligations=len(self.analysed_funcs), root=self.root),
             'samples': samples,
-            'trusted_base': ['python ast module', '/verif/sa engine (core.py, cfg.py)'] + self.trusted,
+            'trusted_base': ['python ast module', '/verif/sa engine (core.py, cfg.py)', 'sa/reference_locals.json (names of function locals on the pinned tree, used to undo behaviour-preserving renames)'] + self.trusted,
             'exhaustive_rules': self.exhaustive_rules,
             'checker_cmd': './check %s --tier %s' % (self.prop, self.tier),
         }
+        ren = [(m.name,) + tuple(r) for m in (self.repo.modules.values() if self.repo is not None else []) for r in getattr(m, 'renames', [])]
+        if ren:
+            self.notes['locals_renamed_back_to_reference'] = ['%s:%s %s->%s' % r for r in ren[:20]]
         if self.notes:
             cov['notes'] = self.notes
         if extra:
